@@ -81,6 +81,8 @@ def shrink(spec, world, clause, max_evals=None):
     """Return (minimised world, evaluations). Deterministic pass order."""
     if max_evals is None:
         max_evals = 120 if spec.engine == "A" else 40
+        if world.get("kind") == "group":
+            max_evals = 300
     cur = world
     evals = 0
     improved = True
